@@ -294,7 +294,7 @@ def run(res, tier, seed, replay):
         spec_failures_on_impl=len(prop_fail), distinct_nontrivial=len(shapes), encode_outcomes=outcome_hist,
         permutation_groups=perm_groups, permutation_group_modes_compared=perm_compared,
         known_finding_observations={k: len(v) for k, v in known_hits.items()},
-        rule="same compositions as C02 (regression corpus + random accepted API histories over 23 packages incl. versioned "
+        rule="every fourth composition is an adaptive history WITH removals (remove_node, unregister_package, unexport, unset_instantiation_argument; nodes exported under several names before they disappear) followed by re-creation that reuses node and package identifiers, before the encode (no permutations for those); the others: same compositions as C02 (regression corpus + random accepted API histories over 23 packages incl. versioned "
              "interface names a:b/c@0.2.0/0.2.1/0.2.5/0.3.0, x:y/z@1.0.0/1.2.0, u:s/{types,api}@1.0.0/1.1.0 with `use`, "
              "v:w/i@1.1.5/1.2.0/1.10.0/1.4.0/12.0.1/1.3.0-rc.1/1.2.0+b5 and p:q/r@0.2.0/0.2.10/0.21.0/0.3.0 (numeric vs field-wise vs "
              "textual-prefix orders disagree)), each under "
